@@ -34,6 +34,7 @@ def run(res, tier, seed, replay):
         recs = ss.corpus_recs("C14", dump=True)
         SOFT = 255
         streams = [("small", SOFT, "sync", "debug", 1200 * k), ("conflict", SOFT, "sync", "debug", 800 * k),
+                   ("softdeep", SOFT, "sync", "debug", 1200 * k), ("softdeep", SOFT & ~8, "sync", "release", 600 * k),
                    ("greedy", 25 | 128 | 4 | 2, "sync", "debug", 1200 * k), ("greedy", 25 | 128, "yield", "debug", 300 * k)]
         r2, hangs = ss.run_streams(streams, seed + 61, dump=True)
         r3, h3 = ss.run_streams([("small", SOFT, "sync", "release", 800 * k), ("greedy", 25 | 128 | 4 | 2, "sync", "release", 600 * k)],
@@ -58,7 +59,7 @@ def run(res, tier, seed, replay):
             res.violation(key, f"hard problem is solvable but with soft requirements {soft} the solver returns Unsolvable in {r['stream']}",
                           ss.replay_obj(r))
             continue
-        if kd == "sat" and not hard_solvable:
+        if kd == "sat" and hard_solvable is False:
             res.violation(key, f"hard problem is unsolvable but a solution was returned with soft requirements in {r['stream']}", ss.replay_obj(r))
             continue
         if kd != "sat":
